@@ -401,3 +401,15 @@ Section Bridge.
     RouteAst.located_component N o v = Reverse.located_component N (lnps o) v.
   Proof. reflexivity. Qed.
 End Bridge.
+
+(** ** reset-before-read: in every CURRENT route body, on every path, a call that reads the memo
+    fields ([t._evaluate(p)], [t._numeric_partial(v, p)]) comes after [t._reset_evaluation_cache()]
+    on the same receiver — which is what entitles RouteAst to read those calls as the pure [eval] /
+    [fwd] (Stateful.v: an evaluation from a reset store is the pure one).  A route that drops the
+    reset, or replaces [e.at(p)] by [e._evaluate(p)], fails here. *)
+Lemma reset_discipline :
+  forallb (fun nf : string * rfun => disciplined [] (r_body (snd nf))) gen_route_all = true.
+Proof. vm_compute. reflexivity. Qed.
+
+Lemma route_bodies_listed : List.length gen_route_all = 20%nat.
+Proof. reflexivity. Qed.
